@@ -35,7 +35,7 @@ def gen_exhaustive(maxlen, caps, handlers):
             if not last_s:
                 rec(seq + ["S"], live, total, emits, rels, True)
         if rels < emits:
-            for r in ("Rk", "Re%d" % (rels + 1), "Rp"):
+            for r in ("Rk", "Re%d" % (8 if rels % 2 == 0 else rels + 1), "Rp"):
                 rec(seq + [r], live, total, emits, rels + 1, False)
 
     rec([], [0], 1, 0, 0, False)
@@ -57,7 +57,7 @@ def gen_last_drop(rng):
             for nclones in (0, 1):
                 pre = ["C0"] * nclones + ["E0"] * n
                 pre += ["D%d" % i for i in range(nclones, -1, -1)]
-                for pat in itertools.product(["Rk", "Re5", "Rp"], repeat=min(3, n)):
+                for pat in itertools.product(["Rk", "Re8", "Rp"], repeat=min(3, n)):
                     tail = list(pat) + ["Rk"] * (n + 1)
                     cases.append("Q %s 1 %s" % (cap, ",".join(pre + tail)))
     return cases
@@ -73,7 +73,7 @@ def gen_patterns(rng):
         cases.append("Q %s 0 %s" % (cap, ",".join(["E0"] * n + ["Rk", "E0", "E0", "S", "Rp", "E0", "E0", "S"])))
     for n in range(1, 6):
         for pat in itertools.product(["Rk", "Re%d", "Rp"], repeat=n):
-            pat = [p % (i + 1) if "%" in p else p for i, p in enumerate(pat)]
+            pat = [p % (8 if i % 2 == 0 else i + 1) if "%" in p else p for i, p in enumerate(pat)]
             for handler in ("0", "1"):
                 if handler == "0" and n > 3:
                     continue
@@ -114,7 +114,7 @@ def gen_random(rng, n, maxlen):
                 seq.append("S")
             else:
                 rels += 1
-                seq.append(rng.choice(["Rk", "Rk", "Re%d" % rels, "Rp"]))
+                seq.append(rng.choice(["Rk", "Rk", "Re%d" % rng.choice([rels, 8, 20, 5]), "Rp"]))
         seq += ["Rk"] * rng.choice([0, emits])
         cases.append("Q %s %s %s" % (cap, handler, ",".join(seq)))
     return cases
@@ -127,6 +127,99 @@ def gen_soak(rng, n, big):
         cases.append("QS %s %d %d %d" % (cap, rng.choice([2, 3, 4, 8]), rng.choice([200, 1000] if big else [50, 200]),
                                           rng.randint(1, 10 ** 6)))
     return cases
+
+
+def gen_schedules(maxlen, caps, rng, nrandom, randlen):
+    """sub-step schedules (hook H2): every sequence of <= maxlen model events over {try_send, incr_submitted,
+    worker dequeue / count / finish(ok|err|panic), sampler load 1 / load 2} that the model accepts, <= 3 producers
+    between try_send and incr_submitted, capacities in [caps]; plus random walks of randlen events"""
+    def enabled(st):
+        cap, chan, pend, wk, samp = st
+        ev = ["T"]
+        if pend:
+            ev.append("I")
+        if wk == "R" and chan:
+            ev.append("W")
+        if wk == "H":
+            ev.append("X")
+        if wk == "C":
+            ev += ["Fk", "Fe8", "Fp"]
+        ev.append("B" if samp else "A")
+        return ev
+
+    def nxt(st, e):
+        cap, chan, pend, wk, samp = st
+        if e == "T":
+            if cap is None or chan < cap:
+                if pend >= 3:
+                    return None
+                return (cap, chan + 1, pend + 1, wk, samp)
+            return st
+        if e == "I":
+            return (cap, chan, pend - 1, wk, samp)
+        if e == "W":
+            return (cap, chan - 1, pend, "H", samp)
+        if e == "X":
+            return (cap, chan, pend, "C", samp)
+        if e[0] == "F":
+            return (cap, chan, pend, "R", samp)
+        if e == "A":
+            return (cap, chan, pend, wk, True)
+        return (cap, chan, pend, wk, False)
+
+    out = []
+
+    def rec(seq, st):
+        if seq:
+            out.append("QH %s 1 %s" % ("u" if st[0] is None else st[0], ",".join(seq)))
+        if len(seq) == maxlen:
+            return
+        for e in enabled(st):
+            n = nxt(st, e)
+            if n is not None:
+                rec(seq + [e], n)
+
+    for c in caps:
+        rec([], (c, 0, 0, "R", False))
+    for _ in range(nrandom):
+        c = rng.choice(caps)
+        st = (c, 0, 0, "R", False)
+        seq = []
+        for _ in range(randlen):
+            e = rng.choice(enabled(st))
+            n = nxt(st, e)
+            if n is None:
+                continue
+            seq.append(e)
+            st = n
+        out.append("QH %s %s %s" % ("u" if c is None else c, rng.choice("01"), ",".join(seq)))
+    return out
+
+
+def annotate(case, model_obs):
+    """tell the harness which try_sends the model expects to be refused (those producers are not parked)"""
+    t = case.split()
+    res = model_obs.split("|")[0][2:].split(",")
+    evs = t[3].split(",")
+    return " ".join(t[:3] + [",".join((e + r) if e == "T" else e for e, r in zip(evs, res))])
+
+
+def judge_schedule(case, obs):
+    bad = []
+    if obs.startswith("HARNESS-PANIC") or obs == "nohooks":
+        return [(p, "sub-step schedule could not run: " + obs[:200]) for p in ("C08", "C10", "C15")]
+    parts = dict(x.split(":", 1) for x in obs.split("|"))
+    for i, r in enumerate(parts["R"].split(",")):
+        if r.startswith("s"):
+            q, sub = (int(x) for x in r[1:].split("."))
+            if q > sub:
+                bad.append(("C15", "event %d: queued() returned %d while submitted() read afterwards is %d" % (i, q, sub)))
+        if r.startswith("!"):
+            bad.append(("C08", "event %d: %s" % (i, r[1:])))
+    ids = [x.split(":")[0] for x in parts["DL"].split(";")] if parts["DL"] else []
+    if ids != [str(k) for k in range(len(ids))]:
+        bad.append(("C08", "the wrapped sink received %s" % ids))
+    return bad
 
 
 # ----------------------------------------------------------------------------- property clauses (reference)
@@ -258,10 +351,16 @@ def run_queue_check(prop, tier, seed):
     cases += gen_patterns(rng)
     cases += gen_random(rng, 4000 if thorough else 400, 40)
     soak = gen_soak(rng, 60 if thorough else 12, thorough)
+    sched = gen_schedules(7 if thorough else 6, [1, 2, None], rng, 3000 if thorough else 300, 30)
     try:
         impl = common.run_harness("queue", cases, shards=common.NCPU)
         model = common.run_model("queue", cases)
         simpl = common.run_harness("queue", soak, shards=min(4, len(soak)))
+        hmodel = common.run_model("queue", sched)
+        keep = [i for i, m in enumerate(hmodel) if m != "invalid"]
+        sched = [annotate(sched[i], hmodel[i]) for i in keep]
+        hmodel = [hmodel[i] for i in keep]
+        himpl = [o.replace("k?", "k") for o in common.run_harness("queue", sched, shards=common.NCPU)]
     except common.CheckFailure as e:
         rep.violation_noinput("correspondence run failed", {"error": str(e)})
         return rep.finish()
@@ -273,9 +372,19 @@ def run_queue_check(prop, tier, seed):
             if o == model[i]:
                 impl[i] = o
         rep.cov["rerun_after_disagreement"] = len(dis_idx)
+    hdis_idx = [i for i, (a, b) in enumerate(zip(himpl, hmodel)) if a != b]
+    if hdis_idx:
+        again = common.run_harness("queue", [sched[i] for i in hdis_idx], shards=min(common.NCPU, len(hdis_idx)))
+        for i, o in zip(hdis_idx, again):
+            if o.replace("k?", "k") == hmodel[i]:
+                himpl[i] = hmodel[i]
     failures = []
     for c, o in zip(cases, impl):
         for pid, msg in judge(c, o):
+            if pid == prop:
+                failures.append((len(c), c, o, msg))
+    for c, o in zip(sched, himpl):
+        for pid, msg in judge_schedule(c, o):
             if pid == prop:
                 failures.append((len(c), c, o, msg))
     for c, o in zip(soak, simpl):
@@ -298,6 +407,7 @@ def run_queue_check(prop, tier, seed):
                             {"bin": "queue", "case": c, "implementation": o, "clause": msg,
                              "how": "build/target/release/harness queue <file with the case line>"})
     dis = [(len(c), c, i, m) for c, i, m in zip(cases, impl, model) if i != m]
+    dis += [(len(c), c, i, m) for c, i, m in zip(sched, himpl, hmodel) if i != m]
     if dis and not failures:
         dis.sort()
         _, c, i, m = dis[0]
@@ -319,7 +429,11 @@ def run_queue_check(prop, tier, seed):
             dist["last_drop"] += 1
         if ",f" in o or ":p" in o or ":e" in o or "rel1" in o or "C" in t[3]:
             nt.add(case_hash(c))
-    rep.cov["evaluations"] = len(cases) + len(soak)
+    rep.cov["evaluations"] = len(cases) + len(soak) + len(sched)
+    rep.cov["substep_schedules"] = len(sched)
+    for c, o in zip(sched, himpl):
+        if ",f" in o or ":p" in o or ":e" in o or "s" in o.split("|")[0]:
+            nt.add(case_hash(c))
     rep.cov["distinct_nontrivial"] = len(nt)
     rep.cov["exhaustive"] = True
     rep.cov["exhaustive_scope"] = ("%d histories: every scripted history of <= %d actions (emit / clone / drop on oldest or newest live "
@@ -332,11 +446,16 @@ def run_queue_check(prop, tier, seed):
                        "extracted Coq model (Queue.acts); results of every emit, counter samples, the wrapped sink's call log, the "
                        "handler log and the release of the wrapped sink are compared, and the property clauses are evaluated on the "
                        "implementation's observation; plus a concurrent soak (2-8 producer threads on clones, sampler thread) whose "
-                       "exactly-once / per-producer order / counter clauses are evaluated directly.  distinct_nontrivial = distinct "
+                       "exactly-once / per-producer order / counter clauses are evaluated directly; plus sub-step schedules driven through the "
+                       "cfg(cadence_verif) hook points (every model-accepted sequence of <= 6 atomic events over try_send / incr_submitted / "
+                       "recv / incr_drained / wrapped-sink answer / the two loads of queued(), capacities {1,2,unbounded}, and random walks of "
+                       "30 events): producers are parked between try_send and incr_submitted, the worker after recv / after incr_drained / "
+                       "after the task / in Sentinel::drop, the sampler between its two loads.  distinct_nontrivial = distinct "
                        "histories with a refused emit, a failure, a panic, a clone or the release of the wrapped sink")
     short = [(c, o) for c, o in zip(cases, impl) if len(c) + len(o) < 200]
     rep.cov["samples"] = [{"case": c, "implementation": o} for c, o in short[11::max(1, len(short) // 5)][:5]]
     rep.cov["samples"].append({"case": soak[0], "implementation": simpl[0]})
+    rep.cov["samples"].append({"case": sched[len(sched) // 2], "implementation": himpl[len(sched) // 2]})
     rep.cov["disagreements"] = len(dis)
     rep.cov["input_distribution"] = dist
     return rep.finish()
